@@ -74,4 +74,29 @@ META = {
         ),
         "technique": "differential runtime oracle (chunked real pipeline vs whole-run reference) on random graphs/chunkings/configs + always-on chunk-law contracts",
     },
+    "C08": {
+        "level_text": (
+            "A recording consumer plugin with 1..4 dependencies over 1..3 kinds is run through the real "
+            "Plugin.iter under both processors with an independent chunking per dependency; each compute "
+            "call's interval, per-kind row ranges, same-kind row alignment and adjacency, and the per-run "
+            "exactly-once / in-order delivery of every input row are checked from the recorded event log "
+            "(exactly-once monitor over unique row ids). Small scope (two same-kind deps <= 2 rows + one other "
+            "kind <= 1 row, all cut subsets up to 2 inner cuts, with/without trailing zero-duration chunk) is "
+            "enumerated; larger cases are random."
+        ),
+        "level_note": "trusted: the event recorder in vf/harness/plugins.py; same-kind deps share row intervals",
+        "technique": "offline checker over recorded compute-call event logs (exactly-once, ordering, alignment) on exhaustive small + random chunkings",
+    },
+    "C09": {
+        "level_text": (
+            "Window-local harness plugins (per-row, per-group and a two-output variant) run through the real "
+            "OverlapWindowPlugin under every chunking of every disjoint row set of <= 3 rows on a small grid "
+            "for seven symmetric/asymmetric/zero windows, plus random larger cases (rows longer than the window, "
+            "many chunks shorter than the window, empty/zero-duration chunks), both processors; the result is "
+            "compared with one computation over the whole run, chunk tiling/containment is checked, and an "
+            "emission monitor checks that multi-output emissions are mutually aligned and adjacent."
+        ),
+        "level_note": "trusted: window-locality of the harness computations; whole-run oracle; emission recorder in the harness plugin's iter()",
+        "technique": "differential runtime oracle (chunked vs whole-run) over exhaustive small chunkings + emission-alignment monitor",
+    },
 }
